@@ -43,6 +43,12 @@ LEVEL_TEXT += (
     "raises for an admissible count pattern is a violation; attributes "
     "the stub objects do not model become opaque values, so a changed "
     "lookup is reported instead of stopping the analysis.")
+LEVEL_TEXT += (
+    " Added in the hunting round (defects found by independent agents "
+    "on the unchanged tree, DESIGN.md 9.4 / 9.6): "
+    "vertex predicates see vertex columns only; the query path reads "
+    "definitely assigned attributes; predicate selectors inherited by "
+    "the periodic classes (open findings).")
 LEVEL_NOTE = ("Trusted: numpy unique/concatenate/intersect1d/union1d/"
               "setdiff1d semantics; connectivity tables are coherent (C11).")
 EXPLANATION = "Provenance-tagged symbolic runs of the DOF query code."
